@@ -1396,4 +1396,245 @@ theorem finalC_finished (i : SInput) : finishedC (finalC i) = true := by
   have hbb := BI_runC i.sched (BI_init i) (QInv_init i)
   exact drainC_finishes _ hq hbb (Nat.le_trans (pot_runC_le i.sched (QInv_init i) (BI_init i)) (pot_init_le i))
 
+/-! ## how `run()` ends -/
+
+def causeOk (i : SInput) : Cause → Bool
+  | .interrupt => i.intr.isSome
+  | .makeTests => i.mkRaise.isSome
+  | .injected => !i.mfaults.isEmpty
+
+def inLoop (s : CSt) : Prop := s.mpc = .get ∨ (∃ w, s.mpc = .join w) ∨ ∃ e, s.mpc = .fwd e
+
+structure RInv (i : SInput) (s : CSt) : Prop where
+  r_done : s.mpc = .done ↔ s.result.isSome
+  r_loop : inLoop s → s.nsp = spawnCount i ∧ i.mkRaise = none
+  r_clean : s.mpc ≠ .abort → (s.result = none ∨ s.result = some .returned) →
+    s.msecs = [] ∧ (∀ b ∈ s.flags, b = false) ∧ (∀ p ∈ s.sink, p.2 = false)
+  r_returned : s.result = some .returned → s.reg = [] ∧ s.nsp = i.workers.length ∧ s.liveAtReturn = []
+  r_cause : ∀ c, (s.result = some (.raised c) ∨ (s.mpc = .abort ∧ s.pending = c)) → causeOk i c = true
+  r_msecs : s.msecs = [] ∨ (i.flavour = .suite ∧ s.msecs = stopSections i.mfaults 0 s.reg.length)
+
+theorem stopsRaise_faults (mf : List Nat) : ∀ (n k : Nat), stopsRaise mf k n = true → mf ≠ []
+  | 0, _, h => by simp [stopsRaise] at h
+  | n + 1, k, h => by
+      simp only [stopsRaise, Bool.or_eq_true] at h
+      rcases h with h | h
+      · intro hc; subst hc; simp at h
+      · exact stopsRaise_faults mf n (k + 1) h
+
+/-- a started worker whose items are all delivered has no steps left -/
+theorem workerDone_of_todo_nil {i : SInput} {s : CSt} (hq : QInv i s) {w : Nat} (hw : w < s.nsp)
+    (ht : todoItems s w = []) : workerDone s w = true := by
+  have hwn : w < i.workers.length := Nat.lt_of_lt_of_le hw (Nat.le_trans hq.nsp_le (spawnCount_le i))
+  have hsi : stepItems (wpc s w) = [] := by
+    unfold todoItems at ht
+    exact (List.append_eq_nil_iff.mp ht).2
+  have hnil : wpc s w = [] := by
+    by_cases hc : wpc s w = []
+    · exact hc
+    · exact absurd hsi (stepItems_ne_nil (hq.lastPut w hwn) hc)
+  have hlt : w + 1 < s.base.pcs.length := by rw [hq.n_pcs]; omega
+  unfold workerDone
+  unfold wpc at hnil
+  simp only [List.getElem?_eq_getElem hlt, Option.getD_some] at hnil ⊢
+  simp [hnil]
+
+theorem unfinished_nil_of_reg_nil {i : SInput} {s : CSt} (hq : QInv i s) (hr : s.reg = []) : unfinished s = [] := by
+  unfold unfinished
+  rw [List.filter_eq_nil_iff]
+  intro w hw
+  have hw := List.mem_range.mp hw
+  have : todoItems s w = [] := by
+    by_cases hc : todoItems s w = []
+    · exact hc
+    · have := (hq.reg_iff w).mpr ⟨hw, hc⟩
+      rw [hr] at this; cases this
+  simp [workerDone_of_todo_nil hq hw this]
+
+theorem RInv_loopHead {i : SInput} {s : CSt} (h : RInv i s) (hunf : s.reg = [] → unfinished s = []) (hm : s.mpc ≠ .abort) (hd : s.mpc ≠ .done)
+    (hn : s.nsp = spawnCount i ∧ i.mkRaise = none) : RInv i (loopHead s) := by
+  have hres : s.result = none := by
+    cases hr : s.result with
+    | none => rfl
+    | some r => exact absurd (h.r_done.mpr (by simp [hr])) hd
+  have hcl := h.r_clean hm (Or.inl hres)
+  unfold loopHead
+  split
+  · rename_i hemp
+    have hreg : s.reg = [] := by simpa using hemp
+    refine ⟨by simp, fun hc => by rcases hc with hc | ⟨w, hc⟩ | ⟨e, hc⟩ <;> simp at hc, fun _ _ => hcl, ?_, ?_, h.r_msecs⟩
+    · intro _
+      refine ⟨hreg, ?_, ?_⟩
+      · simp only [finishMain_nsp]; rw [hn.1]; unfold spawnCount; rw [hn.2]
+      · simp only [finishMain_live]; exact hunf hreg
+    · intro c hc; simp at hc
+  · refine ⟨by simp [hres], fun _ => hn, fun _ _ => hcl, by simp [hres], ?_, h.r_msecs⟩
+    intro c hc; simp [hres] at hc
+
+theorem RInv_abortMain {i : SInput} {s : CSt} (c : Cause) (hres : s.result = none) (hms : s.msecs = [])
+    (hc : causeOk i c = true) : RInv i (abortMain i s c) := by
+  unfold abortMain
+  split
+  · refine ⟨by simp, fun hc => by rcases hc with hc | ⟨w, hc⟩ | ⟨e, hc⟩ <;> simp at hc, ?_, by simp, ?_, Or.inl hms⟩
+    · intro _ hr; simp at hr
+    · intro c' hc'; simp at hc'; rw [← hc']; exact hc
+  · rename_i hfl
+    split
+    · refine ⟨by simp, fun hc => by rcases hc with hc | ⟨w, hc⟩ | ⟨e, hc⟩ <;> simp at hc, ?_, by simp, ?_, Or.inl hms⟩
+      · intro _ hr; simp at hr
+      · intro c' hc'; simp at hc'; rw [← hc']; exact hc
+    · refine ⟨by simp [hres], fun hc => by rcases hc with hc | ⟨w, hc⟩ | ⟨e, hc⟩ <;> simp at hc, ?_, by simp [hres], ?_, Or.inr ⟨hfl, rfl⟩⟩
+      · intro hc; simp at hc
+      · intro c' hc'
+        simp [hres] at hc'
+        rw [← hc']
+        split
+        · rename_i hsr
+          have := stopsRaise_faults _ _ _ hsr
+          simp [causeOk, this]
+        · exact hc
+
+theorem RInv.result_none {i : SInput} {s : CSt} (h : RInv i s) (hd : s.mpc ≠ .done) : s.result = none := by
+  cases hr : s.result with
+  | none => rfl
+  | some r => exact absurd (h.r_done.mpr (by simp [hr])) hd
+
+theorem RInv_nextSpawn {i : SInput} {s : CSt} (h : RInv i s) (hle : s.nsp ≤ spawnCount i) (hunf : s.reg = [] → unfinished s = [])
+    (hm : s.mpc ≠ .abort) (hd : s.mpc ≠ .done) (k : Nat) (hk : k = s.nsp) : RInv i (nextSpawn i s k) := by
+  have hres := h.result_none hd
+  unfold nextSpawn
+  split
+  · refine ⟨by simp [hres], fun hc => by rcases hc with hc | ⟨w, hc⟩ | ⟨e, hc⟩ <;> simp at hc, fun _ _ => h.r_clean hm (Or.inl hres),
+      by simp [hres], ?_, h.r_msecs⟩
+    intro c hc; simp [hres] at hc
+  · rename_i hge
+    split
+    · rename_i hmk
+      exact RInv_abortMain _ hres (h.r_clean hm (Or.inl hres)).1 (by simpa [causeOk] using hmk)
+    · rename_i hmk
+      have : s.nsp = spawnCount i := by omega
+      exact RInv_loopHead h hunf hm hd ⟨this, by simpa using hmk⟩
+
+theorem flagsAfter_all_false {s : CSt} {t : Nat} (h : ∀ b ∈ s.flags, b = false) : ∀ b ∈ flagsAfter s t, b = false := by
+  unfold flagsAfter
+  split
+  · intro b hb
+    rcases List.mem_or_eq_of_mem_set hb with h1 | h1
+    · exact h b h1
+    · exact h1
+  · exact h
+
+/-- a non-terminal update of main that leaves `result`, `msecs`, `flags`, `reg`, `nsp` and the sink's raised marks alone -/
+theorem RInv.transfer {i : SInput} {s s' : CSt} (h : RInv i s) (hd : s.mpc ≠ .done) (hm : s.mpc ≠ .abort)
+    (hres : s'.result = s.result) (hms : s'.msecs = s.msecs) (hfl : ∀ b ∈ s'.flags, b = false)
+    (hsk : ∀ p ∈ s'.sink, p.2 = false) (hd' : s'.mpc ≠ .done) (hm' : s'.mpc ≠ .abort)
+    (hloop : inLoop s' → s'.nsp = spawnCount i ∧ i.mkRaise = none) : RInv i s' := by
+  have hr := h.result_none hd
+  have hcl := h.r_clean hm (Or.inl hr)
+  refine ⟨by simp [hres, hr, hd'], hloop, fun _ _ => ⟨by rw [hms]; exact hcl.1, hfl, hsk⟩, by simp [hres, hr], ?_, by rw [hms]; exact Or.inl hcl.1⟩
+  intro c hc
+  simp [hres, hr, hm'] at hc
+
+/-- **every step preserves the facts about how `run()` ends** -/
+theorem RInv_stepC {i : SInput} {s : CSt} (h : RInv i s) (hq : QInv i s) (t : Nat) : RInv i (stepC i s t) := by
+  have hunf : s.reg = [] → unfinished s = [] := unfinished_nil_of_reg_nil hq
+  unfold stepC
+  split
+  · split
+    · unfold stepMain
+      split
+      · rename_i k hk
+        obtain ⟨hk1, hk2⟩ := hq.mpc_spawn k hk
+        have hcl := h.r_clean (by simp [hk]) (Or.inl (h.result_none (by simp [hk])))
+        have h1 : RInv i { s with nsp := k + 1, reg := s.reg ++ [k] } :=
+          h.transfer (by simp [hk]) (by simp [hk]) rfl rfl hcl.2.1 hcl.2.2 (by simp [hk]) (by simp [hk])
+            (fun hc => by rcases hc with hc | ⟨w, hc⟩ | ⟨e, hc⟩ <;> simp [hk] at hc)
+        exact RInv_nextSpawn h1 (by show k + 1 ≤ spawnCount i; omega) (fun hc => by simp at hc) (by simp [hk]) (by simp [hk]) _ rfl
+      · rename_i hg
+        have hr := h.result_none (by simp [hg])
+        have hcl := h.r_clean (by simp [hg]) (Or.inl hr)
+        have hlp := h.r_loop (Or.inl hg)
+        split
+        · rename_i hi
+          refine RInv_abortMain _ hr hcl.1 ?_
+          simp only [causeOk]
+          have : i.intr = some s.ngets := by simpa using hi
+          simp [this]
+        · split
+          · exact h
+          · rename_i x q hqq
+            split
+            · exact h.transfer (by simp [hg]) (by simp [hg]) rfl rfl hcl.2.1 hcl.2.2 (by simp) (by simp) (fun _ => hlp)
+            · exact h.transfer (by simp [hg]) (by simp [hg]) rfl rfl hcl.2.1 hcl.2.2 (by simp) (by simp) (fun _ => hlp)
+            · have h1 : RInv i { s with base := { s.base with queue := q }, ngets := s.ngets + 1 } :=
+                h.transfer (by simp [hg]) (by simp [hg]) rfl rfl hcl.2.1 hcl.2.2 (by simp [hg]) (by simp [hg]) (fun _ => hlp)
+              exact RInv_loopHead h1 hunf (by simp [hg]) (by simp [hg]) hlp
+            · exact h.transfer (by simp [hg]) (by simp [hg]) rfl rfl hcl.2.1 hcl.2.2 (by simp) (by simp) (fun _ => hlp)
+      · rename_i w hw
+        have hr := h.result_none (by simp [hw])
+        have hcl := h.r_clean (by simp [hw]) (Or.inl hr)
+        have hlp := h.r_loop (Or.inr (Or.inl ⟨w, hw⟩))
+        split
+        · have h1 : RInv i { s with joined := s.joined ++ [w] } :=
+            h.transfer (by simp [hw]) (by simp [hw]) rfl rfl hcl.2.1 hcl.2.2 (by simp [hw]) (by simp [hw]) (fun _ => hlp)
+          exact RInv_loopHead h1 hunf (by simp [hw]) (by simp [hw]) hlp
+        · exact h
+      · rename_i e he
+        have hr := h.result_none (by simp [he])
+        have hcl := h.r_clean (by simp [he]) (Or.inl hr)
+        have hlp := h.r_loop (Or.inr (Or.inr ⟨e, he⟩))
+        dsimp only
+        split
+        · rename_i hrs
+          refine RInv_abortMain _ hr hcl.1 ?_
+          simp only [causeOk]
+          have : i.mfaults ≠ [] := by intro hc; rw [hc] at hrs; simp at hrs
+          simp [this]
+        · rename_i hrs
+          have h1 : RInv i { s with sink := s.sink ++ [(e, i.mfaults.contains s.nstatus)], nstatus := s.nstatus + 1 } := by
+            refine h.transfer (by simp [he]) (by simp [he]) rfl rfl hcl.2.1 ?_ (by simp [he]) (by simp [he]) (fun _ => hlp)
+            intro p hp
+            rcases List.mem_append.mp hp with hp | hp
+            · exact hcl.2.2 p hp
+            · simp at hp; subst hp; simpa using hrs
+          exact RInv_loopHead h1 hunf (by simp [he]) (by simp [he]) hlp
+      · rename_i ha
+        have hr := h.result_none (by simp [ha])
+        dsimp only
+        split
+        · refine ⟨by simp, fun hc => by rcases hc with hc | ⟨w, hc⟩ | ⟨e, hc⟩ <;> simp at hc, ?_, by simp, ?_, h.r_msecs⟩
+          · intro _ hc; simp at hc
+          · intro c hc
+            simp at hc
+            exact h.r_cause c (Or.inr ⟨ha, hc⟩)
+        · refine ⟨by simp [ha, hr], fun hc => by rcases hc with hc | ⟨w, hc⟩ | ⟨e, hc⟩ <;> simp [ha] at hc, ?_, by simp [hr], ?_, h.r_msecs⟩
+          · intro hc; simp [ha] at hc
+          · intro c hc
+            simp [hr] at hc
+            exact h.r_cause c (Or.inr ⟨ha, hc.2⟩)
+      · exact h
+    · exact h
+  · split
+    · refine ⟨h.r_done, h.r_loop, ?_, h.r_returned, h.r_cause, h.r_msecs⟩
+      intro hm hres
+      have := h.r_clean hm hres
+      exact ⟨this.1, flagsAfter_all_false this.2.1, this.2.2⟩
+    · exact h
+
+theorem RInv_runC {i : SInput} (sched : List Nat) : ∀ {s : CSt}, RInv i s → QInv i s → RInv i (runC i s sched) := by
+  induction sched with
+  | nil => intro s h _; exact h
+  | cons t rest ih => intro s h hq; exact ih (RInv_stepC h hq t) (QInv_stepC hq t)
+
+theorem RInv_drainC {i : SInput} : ∀ (fuel : Nat) {s : CSt}, RInv i s → QInv i s → RInv i (drainC i fuel s) := by
+  intro fuel
+  induction fuel with
+  | zero => intro s h _; exact h
+  | succ f ih =>
+    intro s h hq
+    unfold drainC
+    split
+    · exact h
+    · exact ih (RInv_stepC h hq _) (QInv_stepC hq _)
+
 end TTV.Conc
